@@ -73,3 +73,24 @@ Definition op_validate (be : bool) (offset : N) (tys : list ty) (buf : list N) :
 
 (* SE: the specification applied to a wire-level value (descriptor leaves are indices) *)
 Definition op_spec (be : bool) (pos : N) (v : val) : list N * bool := (spec_enc be pos v, encodable be pos 0 v).
+
+(** ** whole bodies *)
+(* wire::unmarshal::unmarshal_body(byteorder, sigs, buf, fds, 0): every type of the signature in turn, then
+   NotAllBytesUsed unless nothing remains (fix 5de75d3) *)
+Definition unmarshal_body (be : bool) (nfds : N) (tys : list ty) (buf : list N) : outcome (list val) :=
+  do r <- unmarshal_p_seq be tys {| ubuf := buf; uoff := 0; unfds := nfds; udepth := 0 |} [];
+  if remainder_len (snd r) =? 0 then Ok (fst r) else Err.
+
+(* MarshalledMessage::unmarshall_all: an empty signature means no values and (fix 5de75d3) no bytes *)
+Definition body_unmarshall_all (be : bool) (nfds : N) (sigbytes : list N) (buf : list N) : outcome (list val) :=
+  match sigbytes with
+  | [] => match buf with [] => Ok [] | _ => Err end
+  | _ => do tys <- parse_description sigbytes; unmarshal_body be nfds tys buf
+  end.
+
+(* MarshalledMessageBody::validate() *)
+Definition op_body_validate (be : bool) (sigbytes : list N) (buf : list N) : bool :=
+  match sigbytes, buf with
+  | [], [] => true
+  | _, _ => match parse_description sigbytes with Ok tys => body_validate be buf tys | _ => false end
+  end.
